@@ -111,7 +111,8 @@ def check_padded(x, w, mode, parab, locs, mags, tol=0.0, prefix=''):
         return fs
     if p == 0 or p % weff:
         fs.append(Failure(prefix + 'pad-count-not-multiple-of-width', '%d added per side, width %d' % (p, weff)))
-    if not (locs[0] < 0 and locs[-1] >= n):
+    # every sample index 0..n-1 must lie in [first, last) for the envelope to have one value per sample
+    if not (locs[0] <= 0 and locs[-1] > n - 1):
         fs.append(Failure(prefix + 'edges-not-covered', 'first %s last %s n %d' % (locs[0], locs[-1], n)))
     if any(abs(v - inner_m[0]) > tol for v in mags[:p]) or any(abs(v - inner_m[-1]) > tol for v in mags[p + m:]):
         fs.append(Failure(prefix + 'pad-magnitude-not-edge-value', 'mags %s' % (mags[:16],)))
@@ -129,13 +130,42 @@ def check_padded(x, w, mode, parab, locs, mags, tol=0.0, prefix=''):
 # implementation calls (public API only)
 
 
+class Timeout(Exception):
+    """the implementation did not return within its budget (e.g. a re-padding loop that never covers the edges)"""
+
+
+class time_limit:
+    """wall-clock budget for one implementation call (SIGALRM; impl() runs in the main thread of its process)"""
+
+    def __init__(self, seconds):
+        self.seconds = seconds
+
+    def _raise(self, *a):
+        raise Timeout('no result after %.1f s' % self.seconds)
+
+    def __enter__(self):
+        import signal
+        self.old = signal.signal(signal.SIGALRM, self._raise)
+        signal.setitimer(signal.ITIMER_REAL, self.seconds)
+
+    def __exit__(self, *a):
+        import signal
+        signal.setitimer(signal.ITIMER_REAL, 0)
+        signal.signal(signal.SIGALRM, self.old)
+        return False
+
+
+CALL_BUDGET_S = 2.0
+
+
 def call_gpe(x, w, mode, parab=False, col2d=False):
     import emd
     X = np.array(x, dtype=float)
     if col2d:
         X = X[:, None]
     X.setflags(write=False)
-    locs, mags = emd.sift.get_padded_extrema(X, pad_width=w, mode=mode, parabolic_extrema=bool(parab))
+    with time_limit(CALL_BUDGET_S):
+        locs, mags = emd.sift.get_padded_extrema(X, pad_width=w, mode=mode, parabolic_extrema=bool(parab))
     if locs is None:
         if mags is not None:
             raise AssertionError('locs None but mags not None')
@@ -168,7 +198,8 @@ def call_env(x, emode, method, w, parab, col2d=False, via_utils=False):
     X.setflags(write=False)
     fn = emd.utils.interp_envelope if via_utils else emd.sift.interp_envelope
     opts = {'pad_width': w, 'parabolic_extrema': bool(parab)}
-    r = fn(X, mode=emode, interp_method=method, extrema_opts=opts, ret_extrema=True)
+    with time_limit(CALL_BUDGET_S):
+        r = fn(X, mode=emode, interp_method=method, extrema_opts=opts, ret_extrema=True)
     if r is None:
         return {'none': True}
     env, (locs, mags) = r
